@@ -31,8 +31,29 @@ def gen(rng, index, tier):
     nmax = 6 if tier == "quick" else 7
     fam = rng.choice(["sparse", "cyclic", "cyclic", "cyclic", "blocky", "near", "uniform", "dup"])
     raw, meta = lib.gen_dataset(rng, nmax=nmax, mmax=5, family=fam, nmin=2)
-    case = {"dataset": raw, "scheme": partcommon.sparse_scheme(rng, meta["family"]), "meta": meta,
-            "bound": rng.choice([0, 2, 2, 80, 80]), "aux": rng.choice(AUX)}
+    bound = rng.choice([0, 2, 2, 80, 80])
+    if rng.random() < 0.08:
+        # several components that cannot be all tied, of different sizes, consistently ordered: blocks of 3-4 elements,
+        # each a Condorcet cycle (rotations); the exact bound falls between / at the component sizes
+        sizes = rng.choice([[3, 3], [3, 3], [3, 4], [4, 3]])
+        els = list(range(sum(sizes)))
+        rng.shuffle(els)
+        blocks, k = [], 0
+        for sz in sizes:
+            blocks.append(els[k:k + sz])
+            k += sz
+        m = rng.choice([3, 3, 4, 5])
+        raw = []
+        for j in range(m):
+            r = []
+            for blk in blocks:
+                rot = (j + rng.choice([0, 0, 1])) % len(blk)
+                r.extend([[e] for e in blk[rot:] + blk[:rot]])
+            raw.append(r)
+        meta = {"family": "multicycle", "kind": "int", "n": len(els), "m": m}
+        bound = rng.choice([2, 3, 3, 4, 80])
+    case = {"dataset": raw, "scheme": partcommon.sparse_scheme(rng, "cyclic" if meta["family"] == "multicycle" else meta["family"]),
+            "meta": meta, "bound": bound, "aux": rng.choice(AUX)}
     if rng.random() < 0.4:
         case["cplex"] = "standin"
     return case
